@@ -244,7 +244,11 @@ def judge_worlds(worlds, scens, ctx, name, pid_sig=None):
             bad += 1
             ev = tr[matched]["op"]
             what = ev["op"]
-            sig = {"kind": "schedule", "scenario": scen.get("name"), "event": what, "pool": scen["pool"]}
+            wq = scen.get("wq", 1.0)
+            ended = sum(1 for t in tr if t["op"]["op"] == "call_end")
+            sig = {"kind": "schedule", "scenario": scen.get("name"), "event": what, "pool": scen["pool"],
+                   "wq_below_workers": isinstance(wq, int) and not isinstance(wq, bool) and 0 < wq < scen.get("nw", 0),
+                   "phase": "exit" if ended == len(scen.get("calls", [])) else "call"}
             if pid_sig:
                 sig.update(pid_sig(scen, ev, w))
             desc = ("%s: scenario %s: the execution under schedule of %d steps is rejected by the observer specification at event %d %s "
@@ -254,3 +258,17 @@ def judge_worlds(worlds, scens, ctx, name, pid_sig=None):
             ctx.violation(sig, desc, {"engine": "simworld", "scenario": scen, "schedule": w.schedule,
                                       "events": [t["op"] for t in tr][:200], "rejected_at": matched})
     return bad
+
+
+def known_replays(h, ctx):
+    """Deterministic re-execution of the schedules recorded with open known findings (KNOWN_FINDINGS.json)."""
+    worlds, scens = [], []
+    for e in ctx.known:
+        rp = e.get("replay")
+        if e.get("status") == "open" and rp:
+            scen = dict(rp["scenario"])
+            scen["judge"] = dict(scen.get("judge", {}), **ctx.extra.get("judge_override", {}))
+            w = h.execute(scen, S.scripted_chooser(rp["schedule"]))
+            worlds.append(w)
+            scens.append(scen)
+    return worlds, scens
